@@ -3,6 +3,7 @@ mod conn;
 mod rt;
 mod tok;
 mod topicx;
+mod wire;
 
 use std::io::{BufRead, BufWriter, Write};
 use std::sync::{Arc, Mutex};
@@ -10,7 +11,7 @@ use std::sync::{Arc, Mutex};
 use serde_json::{Value, json};
 
 thread_local! {
-    static LAST_PANIC: std::cell::RefCell<String> = const { std::cell::RefCell::new(String::new()) };
+    pub(crate) static LAST_PANIC: std::cell::RefCell<String> = const { std::cell::RefCell::new(String::new()) };
 }
 
 fn run_one(run: &Value) -> Vec<Value> {
@@ -100,6 +101,51 @@ fn main() {
                 for e in r.as_ref().expect("run result") {
                     writeln!(w, "{e}").unwrap();
                 }
+            }
+            w.flush().unwrap();
+        }
+        "codec" => {
+            let inp = std::fs::File::open(&args[2]).expect("open vectors");
+            let vecs: Vec<Value> = std::io::BufReader::new(inp)
+                .lines()
+                .map_while(Result::ok)
+                .filter(|l| !l.trim().is_empty())
+                .map(|l| serde_json::from_str(&l).expect("vector json"))
+                .collect();
+            let jobs: usize = args.get(4).and_then(|s| s.parse().ok()).unwrap_or(8);
+            let n = vecs.len();
+            let vecs = Arc::new(vecs);
+            let results: Arc<Mutex<Vec<Option<Value>>>> = Arc::new(Mutex::new(vec![None; n]));
+            let next = Arc::new(std::sync::atomic::AtomicUsize::new(0));
+            let mut ths = Vec::new();
+            for _ in 0..jobs.max(1) {
+                let (vecs, results, next) = (vecs.clone(), results.clone(), next.clone());
+                ths.push(
+                    std::thread::Builder::new()
+                        .stack_size(16 << 20)
+                        .spawn(move || {
+                            loop {
+                                let i = next.fetch_add(64, std::sync::atomic::Ordering::SeqCst);
+                                if i >= vecs.len() {
+                                    break;
+                                }
+                                let hi = (i + 64).min(vecs.len());
+                                let out: Vec<Value> = (i..hi).map(|k| wire::run_vector(&vecs[k])).collect();
+                                let mut r = results.lock().unwrap();
+                                for (k, o) in (i..hi).zip(out) {
+                                    r[k] = Some(o);
+                                }
+                            }
+                        })
+                        .expect("spawn"),
+                );
+            }
+            for t in ths {
+                t.join().expect("worker");
+            }
+            let mut w = BufWriter::new(std::fs::File::create(&args[3]).expect("create out"));
+            for r in results.lock().unwrap().iter() {
+                writeln!(w, "{}", r.as_ref().expect("result")).unwrap();
             }
             w.flush().unwrap();
         }
